@@ -142,6 +142,8 @@ class Interp:
         self.modules = {}       # name -> module node
         self.dtypes = {}        # derived type name -> {comp: (tname, rank, dtype)}
         self.struct_hints = {}  # flattened key -> (tname, rank)
+        self.comp_literal_bounds = {}   # storage key -> literal bounds actually used
+        self.comp_shapes = {}   # (type name, component) -> [(lb, ub)] literal bounds or None
         self.store = {}         # storage key -> z3 term
         self.meta = {}          # storage key -> (tname, rank)
         self.inputs = {}        # storage key -> initial term (symbolic inputs)
@@ -217,16 +219,37 @@ class Interp:
                             if isinstance(dc, F.Data_Component_Def_Stmt):
                                 tname, dtype = self._type_of_spec(dc.items[0])
                                 rank_attr = 0
+                                shape_attr = None
                                 if dc.items[1] is not None:
                                     for a in dc.items[1].items:
                                         if isinstance(a, F.Dimension_Component_Attr_Spec):
                                             rank_attr = len(a.items[1].items)
+                                            shape_attr = a.items[1]
                                 for ent in dc.items[2].items:
                                     rank = rank_attr
+                                    shape = shape_attr
                                     if ent.items[1] is not None:
                                         rank = len(ent.items[1].items)
+                                        shape = ent.items[1]
                                     comps[lname(ent.items[0])] = (tname, rank, dtype)
+                                    self.comp_shapes[(tn, lname(ent.items[0]))] = self._literal_shape(shape)
                 self.dtypes[tn] = comps
+
+    def _literal_shape(self, shape):
+        """[(lb, ub)] when every bound of a component's explicit shape is an integer literal."""
+        if shape is None:
+            return None
+        out = []
+        for sp in shape.items:
+            if not isinstance(sp, F.Explicit_Shape_Spec):
+                return None
+            try:
+                lb = int(str(sp.items[0])) if sp.items[0] is not None else 1
+                ub = int(str(sp.items[1]))
+            except ValueError:
+                return None
+            out.append((lb, ub))
+        return out
 
     def _type_of_spec(self, spec):
         if isinstance(spec, F.Intrinsic_Type_Spec):
@@ -412,6 +435,7 @@ class Interp:
         tname, dtype = self._type_of_spec(d.items[0])
         attrs = d.items[1].items if d.items[1] is not None else []
         dims, is_param, intent, optional = None, False, None, False
+        is_save = False
         for a in attrs:
             if isinstance(a, F.Dimension_Attr_Spec):
                 dims = a.items[1]
@@ -428,6 +452,8 @@ class Interp:
                     pass
                 elif s in ("TARGET", "CONTIGUOUS"):
                     pass
+                elif s == "SAVE":
+                    is_save = True
                 else:
                     raise Unsupported("attribute " + s)
             elif isinstance(a, F.Access_Spec):
@@ -455,9 +481,20 @@ class Interp:
                 self.new_storage(key, tname, 0, init=coerce(val, sort_of(tname)))
                 frame.vars[name] = Binding(name, tname, key, is_param=True)
                 continue
-            if init is not None and frame.vars is not self.globals \
-                    and frame.name != "__main__":
-                raise Unsupported("initialised (SAVE) local")
+            if (init is not None or is_save) and frame.vars is not self.globals \
+                    and frame.name != "__main__" and tname != "struct":
+                # static storage: one location shared by every invocation, initialised once
+                if shape is not None:
+                    raise Unsupported("SAVE array")
+                key = f"{self.prefix}save_{frame.name}_{name}"
+                if key not in self.store:
+                    if init is not None:
+                        iv = coerce(self.ev(init.items[1], frame, guard), sort_of(tname))
+                    else:
+                        iv = z3.Const(f"undef_save_{frame.name}_{name}", sort_of(tname))
+                    self.new_storage(key, tname, 0, init=iv)
+                frame.vars[name] = Binding(name, tname, key)
+                continue
             key = keyprefix + name
             if frame.result_name == name and name in frame.vars:
                 continue
@@ -1172,7 +1209,12 @@ class Interp:
                 if isinstance(p, F.Part_Ref):
                     raise Unsupported("subscript on scalar component")
                 return ("scalar", key, tuple(idx), tname)
-            bounds = self._comp_bounds(key, rank)
+            lit = self.comp_shapes.get((dtype, cname))
+            if lit is not None and len(lit) == rank:
+                bounds = [(z3.IntVal(l), z3.IntVal(u)) for l, u in lit]
+                self.comp_literal_bounds[key] = lit
+            else:
+                bounds = self._comp_bounds(key, rank)
             if isinstance(p, F.Part_Ref):
                 return self._subscripted(None, p.items[1], frame, g, key=key, tname=tname,
                                          bounds=bounds, amap=lambda i: tuple(i),
